@@ -196,6 +196,142 @@ func callResult(v ssa.Value) (*ssa.Call, int) {
 	return nil, 0
 }
 
+// boolFromCall: v is a boolean produced by a call of the function with the given key: a boolean result of its tuple,
+// or a boolean field of a struct it returns.
+func boolFromCall(v ssa.Value, key string) bool {
+	return boolFromCallPred(v, func(c *ssa.Call) bool { return calleeKey(&c.Call) == key })
+}
+
+// boolFromCallPred is boolFromCall for the calls satisfying pred.
+func boolFromCallPred(v ssa.Value, pred func(c *ssa.Call) bool) bool {
+	v = strip(v)
+	if b, ok := v.Type().Underlying().(*types.Basic); !ok || b.Kind() != types.Bool {
+		return false
+	}
+	for d := 0; d < 4; d++ {
+		switch x := v.(type) {
+		case *ssa.Extract:
+			c, ok := x.Tuple.(*ssa.Call)
+			return ok && pred(c)
+		case *ssa.Call:
+			return pred(x)
+		case *ssa.Field:
+			v = strip(x.X)
+		case *ssa.UnOp:
+			// load of a field of a local struct into which the call's result was stored
+			if x.Op != token.MUL {
+				return false
+			}
+			base := x.X
+			for {
+				if fa, ok := base.(*ssa.FieldAddr); ok {
+					base = fa.X
+					continue
+				}
+				break
+			}
+			al, ok := base.(*ssa.Alloc)
+			if !ok || al.Referrers() == nil {
+				return false
+			}
+			var src ssa.Value
+			for _, u := range *al.Referrers() {
+				if st, ok := u.(*ssa.Store); ok && st.Addr == ssa.Value(al) {
+					if src != nil {
+						return false
+					}
+					src = st.Val
+				}
+			}
+			if src == nil {
+				return false
+			}
+			v = strip(src)
+		default:
+			return false
+		}
+	}
+	return false
+}
+
+// boolFlagOfReturn finds the boolean a return hands back - a boolean result, or the single boolean field of a struct
+// result built by a composite literal - and its constant value when it has one.
+func boolFlagOfReturn(ret *ssa.Return) (val, isConst, found bool) {
+	isBool := func(t types.Type) bool {
+		b, ok := t.Underlying().(*types.Basic)
+		return ok && b.Kind() == types.Bool
+	}
+	for i := range ret.Results {
+		v := retOperand(ret, i)
+		if isBool(v.Type()) {
+			bv, ok := constBool(v)
+			return bv, ok, true
+		}
+		st, ok := v.Type().Underlying().(*types.Struct)
+		if !ok {
+			continue
+		}
+		idx := -1
+		for j := 0; j < st.NumFields(); j++ {
+			if isBool(st.Field(j).Type()) {
+				if idx >= 0 {
+					idx = -2
+					break
+				}
+				idx = j
+			}
+		}
+		if idx < 0 {
+			continue
+		}
+		sv := strip(v)
+		if k, ok := sv.(*ssa.Const); ok && k.Value == nil {
+			return false, true, true // zero value
+		}
+		ld, ok := sv.(*ssa.UnOp)
+		if !ok || ld.Op != token.MUL {
+			return false, false, true
+		}
+		al, ok := ld.X.(*ssa.Alloc)
+		if !ok || al.Referrers() == nil {
+			return false, false, true
+		}
+		var vals []ssa.Value
+		whole := false
+		for _, u := range *al.Referrers() {
+			switch x := u.(type) {
+			case *ssa.FieldAddr:
+				if x.Field != idx || x.Referrers() == nil {
+					continue
+				}
+				for _, w := range *x.Referrers() {
+					if s, ok := w.(*ssa.Store); ok {
+						vals = append(vals, s.Val)
+					} else {
+						whole = true
+					}
+				}
+			case *ssa.Store:
+				if x.Addr == ssa.Value(al) {
+					whole = true
+				}
+			case *ssa.UnOp:
+			default:
+				whole = true
+			}
+		}
+		if whole || len(vals) > 1 {
+			return false, false, true
+		}
+		if len(vals) == 0 {
+			return false, true, true // field left at its zero value
+		}
+		bv, ok := constBool(vals[0])
+		return bv, ok, true
+	}
+	return false, false, false
+}
+
 func isNilConst(v ssa.Value) bool {
 	c, ok := v.(*ssa.Const)
 	return ok && c.IsNil()
@@ -703,6 +839,43 @@ func provablyNonNil(fn *ssa.Function, v ssa.Value, at ssa.Instruction) bool {
 	}
 	if _, ok := v.(*ssa.MakeInterface); ok {
 		return true
+	}
+	// the result of a helper (function or local closure) every return of which hands back something provably
+	// non-nil there, or one of its parameters whose argument is provably non-nil here
+	if c, idx := callResult(v); c != nil {
+		if g := c.Call.StaticCallee(); g != nil && g.Blocks != nil && g != fn && (g.Parent() != nil || g.Pkg != nil && strings.HasPrefix(g.Pkg.Pkg.Path(), modPath)) {
+			if idx < 0 {
+				idx = 0
+			}
+			rets := returnsOf(g)
+			okAll := len(rets) > 0
+			for _, ret := range rets {
+				if idx >= len(ret.Results) {
+					okAll = false
+					break
+				}
+				o := strip(retOperand(ret, idx))
+				if pa, isp := o.(*ssa.Parameter); isp {
+					i := paramIndex(pa)
+					if i < 0 || i >= len(c.Call.Args) || !provablyNonNil(fn, c.Call.Args[i], c) {
+						okAll = false
+					}
+					continue
+				}
+				if _, isCall := o.(*ssa.Call); isCall {
+					if cc, _ := callResult(o); cc != nil && cc.Call.StaticCallee() != nil && cc.Call.StaticCallee().Blocks != nil {
+						okAll = false // no recursion into further helpers
+						continue
+					}
+				}
+				if !provablyNonNil(g, o, ret) {
+					okAll = false
+				}
+			}
+			if okAll {
+				return true
+			}
+		}
 	}
 	// reachable only under v != nil
 	if controlledBy(fn, at, func(c *Cond) bool { e := errNonNilEdge(c); return e != nil && strip(e) == v }) {
